@@ -179,6 +179,82 @@ theorem inv2 (m n K L : ℕ) (κ1 κ2 : ℕ → ℕ → ℂ) (h1 : Orth m K κ1)
   rw [sum_congr rfl (fun v hv => by rw [hin v hv]), inv1 n L κ2 h2 (fun y => (K : ℂ) * f x' y) y' hy']
   ring
 
+/-! ## sums of periodic functions over one period -/
+
+theorem sum_range_shift_one {A : Type*} [AddCommMonoid A] (n : ℕ) (h : ℤ → A) (hper : ∀ z, h (z + n) = h z) :
+    ∑ i ∈ range n, h ((i : ℤ) - 1) = ∑ i ∈ range n, h i := by
+  cases n with
+  | zero => simp
+  | succ k =>
+    rw [sum_range_succ', sum_range_succ]
+    have h1 : h (((0 : ℕ) : ℤ) - 1) = h k := by
+      have := hper (((0 : ℕ) : ℤ) - 1)
+      rw [← this]; congr 1; push_cast; ring
+    rw [h1]
+    congr 1
+    exact sum_congr rfl fun i _ => by congr 1; push_cast; ring
+
+/-- a function of period `n` has the same sum over any shifted period -/
+theorem sum_range_shift_int {A : Type*} [AddCommMonoid A] (n : ℕ) (h : ℤ → A) (hper : ∀ z, h (z + n) = h z) (a : ℤ) :
+    ∑ i ∈ range n, h ((i : ℤ) - a) = ∑ i ∈ range n, h i := by
+  induction a with
+  | zero => simp
+  | succ a ih =>
+    have := sum_range_shift_one n (fun z => h (z - a)) (fun z => by
+      show h (z + n - a) = h (z - a); rw [← hper (z - a)]; congr 1; ring)
+    rw [← ih, ← this]
+    exact sum_congr rfl fun i _ => by congr 1; ring
+  | pred a ih =>
+    have := sum_range_shift_one n (fun z => h (z - (-(a : ℤ) - 1))) (fun z => by
+      show h (z + n - (-(a : ℤ) - 1)) = h (z - (-(a : ℤ) - 1)); rw [← hper (z - (-(a : ℤ) - 1))]; congr 1; ring)
+    rw [← this, ← ih]
+    exact sum_congr rfl fun i _ => by congr 1; ring
+
+/-! ## the plain DFT character `E n t = exp(-2πi·t/n)` on integers -/
+
+/-- `exp(-2πi·t/n)` for an integer `t` -/
+noncomputable def E (n : ℕ) (t : ℤ) : ℂ := Complex.exp (-(2 * Real.pi * Complex.I) * (t : ℂ) / n)
+
+theorem E_add (n : ℕ) (s t : ℤ) : E n (s + t) = E n s * E n t := by
+  unfold E; rw [← Complex.exp_add]; congr 1; push_cast; ring
+
+theorem E_zero (n : ℕ) : E n 0 = 1 := by simp [E]
+
+theorem E_period (n : ℕ) (hn : 0 < n) (s : ℤ) : E n (n * s) = 1 := by
+  unfold E
+  have hn' : (n : ℂ) ≠ 0 := by exact_mod_cast hn.ne'
+  have : -(2 * Real.pi * Complex.I) * ((n * s : ℤ) : ℂ) / n = ((-s : ℤ) : ℂ) * (2 * Real.pi * Complex.I) := by
+    push_cast; field_simp
+  rw [this, Complex.exp_int_mul_two_pi_mul_I]
+
+theorem E_add_period (n : ℕ) (hn : 0 < n) (t s : ℤ) : E n (t + n * s) = E n t := by
+  rw [E_add, E_period n hn, mul_one]
+
+/-- `E` only depends on its argument modulo `n` -/
+theorem E_congr (n : ℕ) (hn : 0 < n) (s t : ℤ) (h : (n : ℤ) ∣ s - t) : E n s = E n t := by
+  obtain ⟨c, hc⟩ := h
+  have : s = t + n * c := by omega
+  rw [this, E_add_period n hn]
+
+open ComplexConjugate in
+theorem conj_E (n : ℕ) (t : ℤ) : conj (E n t) = E n (-t) := by
+  unfold E
+  rw [← Complex.exp_conj]
+  congr 1
+  simp only [map_div₀, map_mul, map_neg, Complex.conj_ofReal, Complex.conj_I, map_ofNat, map_intCast, map_natCast]
+  push_cast; ring
+
+/-- the plain DFT kernel `exp(-2πi·a·k/n)` as the shared kernel with the centring cancelled (`offset = ⌊n/2⌋`,
+`shift = -⌊n/2⌋`) -/
+noncomputable def fker (n : ℕ) (a k : ℤ) : ℂ := ker (1 / n) n n ((n : ℤ) / 2) (-(((n : ℤ) / 2 : ℤ) : ℝ)) a k
+
+theorem fker_eq (n : ℕ) (a k : ℤ) : fker n a k = E n (a * k) := by
+  unfold fker ker cc E; congr 1; push_cast; ring
+
+/-- the centred kernel on a full period in terms of the character -/
+theorem ker_centered_eq (n : ℕ) (x u : ℤ) : ker (1 / n) n n 0 0 x u = E n ((x - (n : ℤ) / 2) * (u - (n : ℤ) / 2)) := by
+  unfold ker cc E; congr 1; push_cast; ring
+
 /-! ## the model's transforms in sum form -/
 
 /-- `idft2` as sums: the adjoint kernel applied to `F`, scaled by `√|αr αc|` (unitary) or `1/F.size` -/
